@@ -36,7 +36,7 @@ func init() {
 		Name:  "OPT-canon",
 		Doc:   "in Canonicalize (helpers of the profile included) each post-processing step is the unconditional setter call with the constant \"\" under exactly its own flag (remove-port, remove-user-info, remove-fragment) or sort under exactly its sort-query value; every side-effecting call is control-dependent on a profile field whose zero value disables it",
 		Props: []string{"C16"},
-		Floor: 6,
+		Floor: 4,
 		Run: func(c *Ctx, s *core.Sink) {
 			f, u, xs := canonSteps(c)
 			if f == nil {
@@ -204,7 +204,7 @@ func init() {
 		Name:  "FLOW-canon",
 		Doc:   "with repeated percent-decoding on, hostname, pathname, every pair name, every pair value and the fragment are each replaced by decodeEncode(current value) under nothing but the option and 'component is non-empty', before any sort / remove step; decodeEncode is encode(decode-until-unchanged(s))",
 		Props: []string{"C18"},
-		Floor: 7,
+		Floor: 4,
 		Run: func(c *Ctx, s *core.Sink) {
 			f, u, xs := canonSteps(c)
 			de := c.P.Func("canonicalizer", "", "decodeEncode")
